@@ -35,6 +35,54 @@ CHECKS = {
         "from a grid.",
         "DESIGN.md 4 C02",
     ),
+    "C03": (
+        "model_checking",
+        "explicit-state BFS over real HeavyHitters objects (add/add_ngram/merge/save+load histories "
+        "over an alphabet of NUL-aliases, all-NUL, empty and over-long keys) against exact true counts",
+        "All histories to the depth bound on 2-4 real sketches with widths 1-3 (forced cell sharing) "
+        "over an alphabet built around the identity rule (k vs k+NUL, all-NUL, empty, keys longer than "
+        "max_key_len sharing a prefix); in every state hh[q] for alphabet keys, aliases and never-added "
+        "keys and every pair of query(inf,t) is compared with the exact true count of that identity.",
+        "Trusted: model M4 (true count per identity) and theorem T1 (vf/checks/hh_common.py). "
+        "Depth- and alphabet-bounded.",
+        "DESIGN.md 4 C03",
+    ),
+    "C04": (
+        "model_checking",
+        "explicit-state BFS over real HeavyHitters objects with the potential-function lower bound "
+        "max_r(2f - W_r) as oracle; all orderings / partitions / merge orders at width 1",
+        "Same state graphs as C03 with the lower-bound oracle: hh[x] >= max_r(2f-W_r), presence in "
+        "query(inf,t) for t in {0,1,None,bound}, and 'majority key is reported first with >= 2f-N', "
+        "evaluated in every reached state; plus all orderings of unit adds in one cell (depth 6-8) and "
+        "all partitions/merge orders over 4 sketches.",
+        "Trusted: M4 + theorems T2/T3 (potential bound, super-additive under merge; proof sketch in "
+        "DESIGN 3.4 / hh_common.py); cell ownership probed on the real sketch. Totals kept < 2^32.",
+        "DESIGN.md 4 C04",
+    ),
+    "C05": (
+        "model_checking",
+        "edge predicate on every add transition of BFS state graphs of real linear/log8/log16 "
+        "count-min sketches; log add events enumerate the environment's draw vectors",
+        "Every add transition reachable within the depth bound (from merged and saturated states too) "
+        "is checked pre/post: the key's estimate, every other key's estimate, the table diff (<= 1 "
+        "counter per row, only the key's cells) and n_added. For log sketches the random draws are "
+        "environment answers enumerated exhaustively ({advance,stay}^v for v<=3).",
+        "Trusted: probed cell ownership; draws injected through the documented rand_nums/rand_ptr "
+        "fields. Depth- and alphabet-bounded; log multiplicities <= 20.",
+        "DESIGN.md 4 C05",
+    ),
+    "C13": (
+        "model_checking",
+        "explicit-state BFS in which query(k,t) is a state-changing event (candidate cache is part of "
+        "the state), interleaved with add/merge/save+load; differential oracle vs a freshly loaded copy",
+        "All interleavings to the depth bound of add / add_ngram / merge / save+load / query(t) with "
+        "t in {None,0,1,2,2^32-1}; at every query event the answer for k in {1,2,3,inf} is checked for "
+        "order, distinctness, count == hh[key] >= threshold, first-k consistency, completeness, and "
+        "equality with the answer of a freshly saved+loaded copy (so cache-hit and cache-miss paths "
+        "after every prefix are covered).",
+        "Trusted: M4; real save/load as the freshness reference. Depth- and alphabet-bounded.",
+        "DESIGN.md 4 C13",
+    ),
     "C11": (
         "model_checking",
         "exhaustive enumeration of a finite input domain (all byte values x positions x lengths, "
